@@ -56,6 +56,10 @@ def filter_kinds(ctx: Ctx, fi: FuncInfo, expr: ast.AST, node: Node, depth: int =
                     sl = prog.slice(fi, recv, node)
                     names = sl.callees()
                     found = False
+                    via_callers = _spec_kinds_from_callers(ctx, fi, recv, node, depth)
+                    if via_callers:
+                        kinds |= via_callers
+                        found = True
                     if any("_get_gitignore" in n or "load_gitignore" in n for n in names) or any(
                         p == "gitignore_specs" for p in sl.params()
                     ):
@@ -83,6 +87,53 @@ def filter_kinds(ctx: Ctx, fi: FuncInfo, expr: ast.AST, node: Node, depth: int =
                         for ex in cflow.node_exprs(n2):
                             kinds |= filter_kinds(ctx, callee, ex, n2, depth + 1) - {"isfile"}
     return kinds
+
+
+def _spec_kinds_from_callers(ctx: Ctx, fi: FuncInfo, recv: ast.AST, node: Node, depth: int) -> set[str]:
+    """A spec that reaches this function as a parameter, or as a field of a record parameter (`walk.tool_ignore`), is
+    classified by what the callers put there."""
+    from ..dataflow import bind_call
+    from ..loader import ClassInfo
+    from .common import callers_index
+
+    prog = ctx.prog
+    if depth > 2:
+        return set()
+    base, attr = recv, None
+    if isinstance(recv, ast.Attribute) and isinstance(recv.value, ast.Name):
+        base, attr = recv.value, recv.attr
+    if not (isinstance(base, ast.Name) and base.id in fi.params and all(d.kind == "param" for d in prog.flow(fi).reaching(node, base.id))):
+        return set()
+    out: set[str] = set()
+    for cq in sorted(callers_index(prog).get(fi.qual, ())):
+        caller = prog.repo.functions.get(cq)
+        if caller is None or isinstance(caller.node, ast.Lambda):
+            continue
+        cflow = prog.flow(caller)
+        for cn, call in cflow.all_calls():
+            if prog.resolve_call(caller, call) != [fi]:
+                continue
+            arg = bind_call(fi, call).get(base.id)
+            if arg is None:
+                continue
+            exprs: list[tuple[ast.AST, Node]] = [(arg, cn)]
+            if attr is not None:
+                exprs = []
+                if isinstance(arg, ast.Name):
+                    for d in cflow.reaching(cn, arg.id):
+                        if d.kind == "assign" and isinstance(d.value, ast.Call):
+                            ci = prog.repo.resolve_expr(d.value.func, caller.module, caller) if isinstance(d.value.func, (ast.Name, ast.Attribute)) else None
+                            if isinstance(ci, ClassInfo):
+                                fields = [st.target.id for st in ci.node.body if isinstance(st, ast.AnnAssign) and isinstance(st.target, ast.Name)]
+                                val = next((k.value for k in d.value.keywords if k.arg == attr), None)
+                                if val is None and attr in fields and fields.index(attr) < len(d.value.args):
+                                    val = d.value.args[fields.index(attr)]
+                                if val is not None:
+                                    exprs.append((val, d.node))
+            for e, en in exprs:
+                probe = ast.Call(func=ast.Attribute(value=e, attr="match_file", ctx=ast.Load()), args=[], keywords=[])
+                out |= filter_kinds(ctx, caller, probe, en, depth + 1) - {"spec?"}
+    return out
 
 
 def _polarity_matched(test: ast.AST, label: str) -> bool:
@@ -277,63 +328,93 @@ def check_resolve(ctx: Ctx) -> None:
             ctx.ob("R-RESOLVE-V3", f"{walk.qual} :: directory pruning consults {k}", k in kinds,
                    f"directories must be pruned by the {k} rules before descent; consulted: {sorted(kinds)}", where(walk, n))
 
-    # ---- V4 determinism: seen-check before every append, sort before return
-    rflow = prog.flow(res)
-    appends = [(n, c) for n, c in rflow.all_calls() if isinstance(c.func, ast.Attribute) and c.func.attr == "append"
-               and any(d.kind == "assign" and isinstance(d.value, ast.List) for d in rflow.reaching(n, root_name(c.func.value) or ""))]
+    # ---- V4 determinism: seen-check before every append, sort before return. The accumulation may be written in resolve()
+    # itself or in helpers / a small accumulator class it uses: every place where a *resolved* path is appended to a list.
+    from .common import deep_origins, guard_atoms, reachable_functions
+
+    scope_fns = {q: f for q, f in reachable_functions(prog, [res]).items() if f.module.name.startswith("flowmark.file_resolver")}
+    for f in list(repo.functions.values()):
+        # methods of accumulator classes instantiated in scope
+        if f.cls is not None and f.module.name.startswith("flowmark.file_resolver") and f.cls.qual != RESOLVER and f.qual not in scope_fns:
+            scope_fns[f.qual] = f
+    appends = []
+    for f in scope_fns.values():
+        if isinstance(f.node, ast.Lambda):
+            continue
+        fl = prog.flow(f)
+        for n, c in fl.all_calls():
+            if isinstance(c.func, ast.Attribute) and c.func.attr == "append" and len(c.args) == 1:
+                ao = origins(prog, f, c.args[0], n)
+                if any(o[0] == "call" and str(o[1]).endswith(".resolve") for o in ao):
+                    appends.append((f, n, c, ao))
     ctx.require("R-RESOLVE-V4", "result.append sites in resolve", len(appends), 1)
-    sorts = [n for n, c in rflow.all_calls() if isinstance(c.func, ast.Attribute) and c.func.attr == "sort"] + [
-        n for n in rflow.cfg.returns() if isinstance(n.ast.value, ast.Call) and isinstance(n.ast.value.func, ast.Name)
-        and n.ast.value.func.id == "sorted"]
-    rets = rflow.cfg.returns()
-    for n, c in appends:
-        p = None
-        for r in rets:
-            if r in sorts:
-                continue
-            p = p or rflow.cfg.path_avoiding(n, r, set(sorts))
-        ctx.ob("R-RESOLVE-V4", f"{res.qual} :: result sorted after {norm(c)}", p is None and bool(sorts),
-               "the result must be sorted after the last append on every path to the return (order of arguments / directory "
-               "listing must not show)", where(res, n), [f"{x.lineno}: {x.text()}" for x in (p or [])])
-        heads = [h for h in rflow.cfg.nodes if h.kind == "for" and n in rflow.loop_body_nodes(h)]
-        inner = max(heads, key=lambda h: h.id)
+    rflow = prog.flow(res)
+    for f, n, c, ao in appends:
         seen_ok = False
-        for b, lab in must_edges(rflow.cfg, inner, n) or set():
-            if b.kind != "test":
-                continue
-            for leaf in ([b.ast] if not isinstance(b.ast, ast.BoolOp) else list(b.ast.values)):
-                if isinstance(leaf, ast.Compare) and len(leaf.ops) == 1 and isinstance(leaf.ops[0], ast.NotIn) and lab == "T":
-                    lo = origins(prog, res, leaf.left, b)
-                    ao = origins(prog, res, c.args[0], n) if c.args else frozenset()
-                    if lo == ao and any(o[0] == "call" and o[1].endswith(".resolve") for o in lo):
-                        seen_ok = True
+        for a, truth, b in guard_atoms(prog, f, n):
+            if isinstance(a, ast.Compare) and len(a.ops) == 1 and ((isinstance(a.ops[0], ast.NotIn) and truth) or (isinstance(a.ops[0], ast.In) and not truth)):
+                if origins(prog, f, a.left, b) == ao:
+                    seen_ok = True
         ctx.ob("R-RESOLVE-V4", f"{res.qual} :: {norm(c)} guarded by the seen-set on the resolved path", seen_ok,
-               "a path is appended only if its resolved form is not yet in the seen set (duplicate-free result)", where(res, n))
-    # ---- V5 size limit: 0 disables, strict comparison (identified by what the operands derive from, not by their text)
-    sflow = prog.flow(size)
+               "a path is appended only if its resolved form is not yet in the seen set (duplicate-free result)", where(f, n))
+        # marking as seen and appending go together: a path that is marked but then filtered out would make a later argument
+        # that legitimately contains it (a directory walked without force-exclude semantics) skip it
+        fl = prog.flow(f)
+        adds = [(n2, c2) for n2, c2 in fl.all_calls() if isinstance(c2.func, ast.Attribute) and c2.func.attr == "add" and len(c2.args) == 1
+                and origins(prog, f, c2.args[0], n2) == ao]
+        mine = {(b.id, lab) for b, lab in all_guards(prog, f, n)}
+        paired = [n2 for n2, c2 in adds if {(b.id, lab) for b, lab in all_guards(prog, f, n2)} == mine]
+        if adds:
+            ctx.ob("R-RESOLVE-V4", f"{res.qual} :: {norm(c)} marked as seen exactly when appended", bool(paired),
+                   "the seen-set entry and the result entry for a path must be made under the same conditions", where(f, n))
+    # the list handed out by resolve() is sorted: sorted(...) on the way to every return, or .sort() after the last append
+    sorts = [n for n, c in rflow.all_calls() if isinstance(c.func, ast.Attribute) and c.func.attr == "sort"]
+    for r in rflow.cfg.returns():
+        do = deep_origins(prog, res, r.ast.value, r)
+        by_sorted = bool(do) and all(o[0] == "call" and o[1] in ("sorted", "builtins.sorted") for o in do)
+        by_sort = False
+        if sorts:
+            own_appends = [n for f, n, c, ao in appends if f is res]
+            by_sort = all(rflow.cfg.path_avoiding(n, r, set(sorts)) is None for n in own_appends) and rflow.cfg.path_avoiding(rflow.cfg.entry, r, set(sorts)) is None
+        ctx.ob("R-RESOLVE-V4", f"{res.qual} :: result sorted before {norm(r.ast)[:40]}", by_sorted or by_sort,
+               "the result must be sorted after the last append on every path to the return (order of arguments / directory "
+               "listing must not show)", where(res, r))
+    # ---- V5 size limit: 0 disables, strict comparison (identified by what the operands derive from, not by their text).
+    # The test may live in the method itself or in a helper it hands the limit to.
+    from ..dataflow import bind_call as _bind
 
-    def from_limit(e: ast.AST, n: Node) -> bool:
-        return any(_mentions_attr(o, "files_max_size") for o in origins(prog, size, e, n))
-
+    targets: list[tuple[FuncInfo, set[str]]] = [(size, set())]
+    for n, c in prog.flow(size).all_calls():
+        t = prog.resolve_call(size, c)
+        if isinstance(t, list) and len(t) == 1 and not isinstance(t[0].node, ast.Lambda):
+            lim = {p for p, a in _bind(t[0], c).items() if any(_mentions_attr(o, "files_max_size") for o in origins(prog, size, a, n))}
+            if lim:
+                targets.append((t[0], lim))
     zero = False
     cmp_ok = False
-    for n in sflow.cfg.nodes:
-        for ex in sflow.node_exprs(n):
-            for c in walk_no_nested(ex):
-                if not (isinstance(c, ast.Compare) and len(c.ops) == 1):
-                    continue
-                l, r = c.left, c.comparators[0]
-                if isinstance(c.ops[0], ast.Eq) and isinstance(r, ast.Constant) and r.value == 0 and from_limit(l, n) and n.kind == "test":
-                    for s2, lab in n.succ:
-                        if lab == "T" and s2.kind == "stmt" and isinstance(s2.ast, ast.Return) and isinstance(s2.ast.value, ast.Constant) \
-                                and s2.ast.value.value is False:
-                            zero = True
-                if isinstance(c.ops[0], ast.Gt) and from_limit(r, n):
-                    sl = prog.slice(size, l, n)
-                    if any(op == ".st_size" for op, _ in sl.ops) or "st_size" in norm(l) or any("st_size" in a for a in sl.attrs()):
+    for tf, lim_params in targets:
+        sflow = prog.flow(tf)
+
+        def from_limit(e: ast.AST, n: Node, tf=tf, lim_params=lim_params) -> bool:
+            return any(_mentions_attr(o, "files_max_size") or (o[0] == "param" and o[1] in lim_params) for o in origins(prog, tf, e, n))
+
+        for n in sflow.cfg.nodes:
+            for ex in sflow.node_exprs(n):
+                for c in walk_no_nested(ex):
+                    if not (isinstance(c, ast.Compare) and len(c.ops) == 1):
+                        continue
+                    l, r = c.left, c.comparators[0]
+                    if isinstance(c.ops[0], ast.Eq) and isinstance(r, ast.Constant) and r.value == 0 and from_limit(l, n) and n.kind == "test":
+                        for s2, lab in n.succ:
+                            if lab == "T" and s2.kind == "stmt" and isinstance(s2.ast, ast.Return) and isinstance(s2.ast.value, ast.Constant) \
+                                    and s2.ast.value.value is False:
+                                zero = True
+                    if isinstance(c.ops[0], ast.Gt) and from_limit(r, n):
+                        sl = prog.slice(tf, l, n)
+                        if any(op == ".st_size" for op, _ in sl.ops) or "st_size" in norm(l) or any("st_size" in a for a in sl.attrs()):
+                            cmp_ok = True
+                    if isinstance(c.ops[0], ast.Lt) and from_limit(l, n) and "st_size" in norm(r):
                         cmp_ok = True
-                if isinstance(c.ops[0], ast.Lt) and from_limit(l, n) and "st_size" in norm(r):
-                    cmp_ok = True
     ctx.ob("R-RESOLVE-V5", f"{size.qual} :: 0 means no limit", zero, "files_max_size == 0 must short-circuit to 'not too large'", where(size, size.node))
     ctx.ob("R-RESOLVE-V5", f"{size.qual} :: larger-than comparison", cmp_ok,
            "a file is skipped only if its size is strictly greater than the limit (st_size > files_max_size)", where(size, size.node))
